@@ -29,6 +29,7 @@ def cli_diff(ctx, cases, project=None, tag="", inproc=False, keyf=None):
     for c, m, i in zip(cases, mres, ires):
         ctx.count()
         mst, mout = run.parse_model_outcome(m)
+        if run.framework_intercepts(c): mst = "fail:unmodelled:help-alias"
         if mst.startswith("fail:unmodelled"):
             ctx.tally("model", "unmodelled")
             if i["status"].startswith("crash") or i["status"] == "timeout":
@@ -414,6 +415,7 @@ def check_C09(ctx):
         ctx.tally("planted_lines", min(nbad, 5))
         if nbad: ctx.nontriv(f["data"])
         cases.append(dict(files={"f.yaml": f["data"]}, cmd="lint", arg=b"f.yaml", silent=r.random() < 0.3, **NOCOLOR))
+        if cases[-1]["silent"] is False and r.random() < 0.3: cases[-1]["false_flags"] = ["silent"]       # --silent=false: the same as not silent
     # physical lines longer than common read buffers (4096 bytes ... just under the 65536-byte limit) before a malformed entry: still ONE line each
     longc = []
     for k in range(ctx.scale(30, 400)):
